@@ -298,6 +298,11 @@ pub struct Profile {
     pub queries_per_build: usize,
     pub change_metric: bool,
     pub sparse_ids: bool,
+    /// probability that a round is a bulk load of 201..=bulk_max items (memory-batch boundaries)
+    pub p_bulk: f64,
+    pub bulk_max: usize,
+    /// probability that an add over a live id writes a same-value / different-bits variant of the stored vector
+    pub p_variant_overwrite: f64,
 }
 
 impl Profile {
@@ -325,6 +330,9 @@ impl Profile {
             queries_per_build: 0,
             change_metric: false,
             sparse_ids: true,
+            p_bulk: 0.0,
+            bulk_max: 600,
+            p_variant_overwrite: 0.0,
         }
     }
 }
@@ -389,6 +397,28 @@ pub fn gen_vec(rng: &mut StdRng, dims: usize, values: Values, pool: &[Vec<f32>])
             .collect(),
         Values::Degenerate(k) => crate::props::degenerate::gen_degenerate(rng, dims, k, pool),
     }
+}
+
+/// A vector that compares equal (or nearly) to `old` as floats but differs in its bit pattern:
+/// flipped signs of zeros, other NaN payloads, and at least one such change when possible.
+pub fn variant_of(rng: &mut StdRng, old: &[f32]) -> Vec<f32> {
+    let mut v = old.to_vec();
+    let mut changed = false;
+    for x in v.iter_mut() {
+        if *x == 0.0 && rng.gen_bool(0.7) {
+            *x = -*x;
+            changed = true;
+        } else if x.is_nan() && rng.gen_bool(0.7) {
+            *x = f32::from_bits(x.to_bits() ^ 0x0000_0101);
+            changed = true;
+        }
+    }
+    if !changed && !v.is_empty() {
+        // no zero / NaN to play with: plant a zero, then the next variant can flip it
+        let k = rng.gen_range(0..v.len());
+        v[k] = if rng.gen_bool(0.5) { 0.0 } else { -0.0 };
+    }
+    v
 }
 
 pub struct Case {
@@ -456,7 +486,27 @@ pub fn gen_case(seed: u64, p: &Profile) -> Case {
     // approximate live-set tracking only to bound the size and to aim deletes at present ids
     let mut live: Vec<Vec<u32>> = vec![Vec::new(); n_ix];
     let mut pools: Vec<Vec<Vec<f32>>> = vec![Vec::new(); n_ix];
+    let mut last_written: Vec<HashMap<u32, Vec<f32>>> = vec![HashMap::new(); n_ix];
     for round in 0..rounds {
+        if p.p_bulk > 0.0 && rng.gen_bool(p.p_bulk) {
+            // bulk load: more than the 200-item minimum batch, so that memory hints cut batches
+            let ix = rng.gen_range(0..n_ix);
+            let dims = model.ix[ix].dims;
+            let n = rng.gen_range(201..=p.bulk_max.max(202));
+            let base: u32 = match id_dist {
+                IdDist::Sparse => rng.gen_range(0..u32::MAX - 4096),
+                IdDist::Clustered => 65536 - 100,
+                IdDist::Dense(_) => 0,
+            };
+            for k in 0..n as u32 {
+                let id = base + k * rng.gen_range(1..3);
+                let vec = gen_vec(&mut rng, dims, values, &pools[ix]);
+                if !live[ix].contains(&id) {
+                    live[ix].push(id);
+                }
+                ops.push(Op::Add { ix, id, vec });
+            }
+        }
         let n_ops = if round == 0 {
             rng.gen_range(p.ops_per_round.0.max(1)..=p.ops_per_round.1.max(1))
         } else {
@@ -508,14 +558,23 @@ pub fn gen_case(seed: u64, p: &Profile) -> Case {
                 if live[ix].len() >= p.max_items {
                     continue;
                 }
-                let id = gen_id(&mut rng, id_dist);
-                let vec = gen_vec(&mut rng, dims, values, &pools[ix]);
+                let mut id = gen_id(&mut rng, id_dist);
+                let mut vec = gen_vec(&mut rng, dims, values, &pools[ix]);
+                if p.p_variant_overwrite > 0.0 && !live[ix].is_empty() && rng.gen_bool(p.p_variant_overwrite) {
+                    // overwrite a live id with a vector that is equal in value but not in bits
+                    let k = rng.gen_range(0..live[ix].len());
+                    if let Some(old) = last_written[ix].get(&live[ix][k]) {
+                        id = live[ix][k];
+                        vec = variant_of(&mut rng, old);
+                    }
+                }
                 if pools[ix].len() < 64 {
                     pools[ix].push(vec.clone());
                 }
                 if !live[ix].contains(&id) {
                     live[ix].push(id);
                 }
+                last_written[ix].insert(id, vec.clone());
                 ops.push(Op::Add { ix, id, vec });
             }
             if rng.gen_bool(p.p_midcommit) {
@@ -1377,6 +1436,7 @@ impl Engine<'_> {
         }
         // structural monitors on the raw dump
         let mut decoded: Option<RawIndex> = None;
+        let mut forest_broken: Option<String> = None;
         {
             let d = rawdb::dump(wtxn, db).unwrap();
             let own = rawdb::dump_of_index(&d, index);
@@ -1413,10 +1473,15 @@ impl Engine<'_> {
                         }
                     }
                     Err(e) => {
-                        return Some(self.own(ck.forest, step, "forest", format!("after {desc} over {n} items ({} {}d): {e}", metric.short(), dims)));
+                        let msg = format!("after {desc} over {n} items ({} {}d): {e}", metric.short(), dims);
+                        if ck.forest {
+                            return Some(vio(step, "forest", msg));
+                        }
+                        // not ours: let the monitors this profile owns look at the state first
+                        forest_broken = Some(msg);
                     }
                 }
-                if ck.forest {
+                if ck.forest && forest_broken.is_none() {
                     // secondary oracle: upstream's own walker; a disagreement is a harness inconsistency
                     let r = with_metric!(metric, D, guarded(|| {
                         Reader::<D>::open(wtxn, index, adb::<D>(db)).and_then(|r| r.assert_validity(wtxn))
@@ -1429,7 +1494,7 @@ impl Engine<'_> {
             }
             decoded = Some(dec);
         }
-        if ck.routing {
+        if ck.routing && forest_broken.is_none() {
             if let Some(dec) = &decoded {
                 if let Err(e) = with_metric!(metric, D, crate::props::c04::check_routing::<D>(wtxn, db, &m, dec, rng, &mut self.c)) {
                     return Some(vio(step, "routing", format!("after {desc}: {e}")));
@@ -1460,6 +1525,9 @@ impl Engine<'_> {
             if let Err(e) = with_metric!(metric, D, check_store::<D>(wtxn, db, &m, &probe, true, &mut self.c)) {
                 return Some(vio(step, "store:after-build", format!("after {desc}: building changed the item store: {e}")));
             }
+        }
+        if let Some(msg) = forest_broken {
+            return Some(self.own(false, step, "forest", msg));
         }
         if let Some(dec) = decoded {
             self.prev_forest.insert(index, dec);
